@@ -1,23 +1,25 @@
 #!/bin/bash
 # usage: try_seed_iso.sh <PID> <n> <check ids...>
-# Runs checks against a seeded patch WITHOUT touching /repo or /verif: a scratch worktree of /repo (/tmp/iso/repo)
-# gets the patch, a scratch copy of /verif (/tmp/iso/verif, harness pointed at the worktree) runs the checks with
+# Runs checks against a seeded patch WITHOUT touching /repo or /verif: a scratch worktree of /repo ($ISO/repo)
+# gets the patch, a scratch copy of /verif ($ISO/verif, harness pointed at the worktree) runs the checks with
 # VERIF_REPO set. The scratch directories are kept between calls for incremental builds; remove with `rm -rf /tmp/iso`
-# and `git -C /repo worktree prune`.
+# and `git -C /repo worktree prune`.  ISO_DIR (default /tmp/iso) selects another scratch place, so that several
+# lanes can run side by side (tools/seed_regress_par.sh).
 PID=$1; N=$2; shift 2
 P=/verif/seeded/${PID}_$N/patch.diff
 [ -f "$P" ] || P=/tmp/wt_$PID/seed_out/$N/patch.diff
 [ -f "$P" ] || { echo "no patch"; exit 2; }
-mkdir -p /tmp/iso
-# one user at a time (agents share /tmp/iso)
-exec 9>/tmp/iso.lock; flock 9
+ISO=${ISO_DIR:-/tmp/iso}
+mkdir -p $ISO
+# one user at a time per scratch place (agents share /tmp/iso)
+exec 9>$ISO.lock; flock 9
 HEAD=$(git -C /repo rev-parse HEAD)
-if [ ! -d /tmp/iso/repo ]; then git -C /repo worktree add --detach /tmp/iso/repo $HEAD >/dev/null 2>&1 || exit 3; fi
-cd /tmp/iso/repo && git checkout -q -- . && git checkout -q --detach $HEAD || exit 3
+if [ ! -d $ISO/repo ]; then git -C /repo worktree add --detach $ISO/repo $HEAD >/dev/null 2>&1 || exit 3; fi
+cd $ISO/repo && git checkout -q -- . && git checkout -q --detach $HEAD || exit 3
 rsync -a --delete --exclude .git --exclude 'harness/target' --exclude 'harness_yara/target' --exclude replays --exclude .locks \
-      --exclude 'harness/Cargo.lock' --exclude 'harness_yara/Cargo.lock' /verif/ /tmp/iso/verif/
-sed -i 's|"/repo/|"/tmp/iso/repo/|g' /tmp/iso/verif/harness/Cargo.toml /tmp/iso/verif/harness_yara/Cargo.toml
+      --exclude 'harness/Cargo.lock' --exclude 'harness_yara/Cargo.lock' /verif/ $ISO/verif/
+sed -i "s|\"/repo/|\"$ISO/repo/|g" $ISO/verif/harness/Cargo.toml $ISO/verif/harness_yara/Cargo.toml
 git apply $P || { echo "patch does not apply"; exit 3; }
-export VERIF_REPO=/tmp/iso/repo
-for c in "$@"; do (cd /tmp/iso/verif && ./check $c 2>&1 | grep -v "^KNOWN-FINDING" | cut -c1-220 | sed "s/^/[${PID}_$N $c] /"); done
-cd /tmp/iso/repo && git checkout -q -- .
+export VERIF_REPO=$ISO/repo
+for c in "$@"; do (cd $ISO/verif && ./check $c 2>&1 | grep -v "^KNOWN-FINDING" | cut -c1-220 | sed "s/^/[${PID}_$N $c] /"); done
+cd $ISO/repo && git checkout -q -- .
